@@ -95,7 +95,13 @@ func mutateInsert(current, value interface{}) (interface{}, interface{}) {
 	}
 	if vc.Kind() == reflect.Map && vv.Kind() == reflect.Map {
 		if vc.IsNil() && vv.Len() > 0 {
-			return value, value
+			// the new value and the difference must not share one map: a
+			// later mutation of the column modifies the new value in place
+			v := reflect.MakeMapWithSize(vv.Type(), vv.Len())
+			for iter := vv.MapRange(); iter.Next(); {
+				v.SetMapIndex(iter.Key(), iter.Value())
+			}
+			return v.Interface(), value
 		}
 		diff := reflect.MakeMap(vc.Type())
 		iter := vv.MapRange()
